@@ -123,3 +123,159 @@ Theorem c14f_missing_end_flagged :
     In 141%N (c14f_codes acts tr extra).
 Proof. exact C14fProofs.c14f_missing_end_lemma. Qed.
 Print Assumptions c14f_missing_end_flagged.
+
+(* ------------------------------------------------------------------ *)
+(* C14 under handler faults                                            *)
+(* ------------------------------------------------------------------ *)
+From AMV Require Proofs.C14FaultProofs.
+
+(* the handler loop is never lost (recoverToErr restarts it): no run of the
+   model hangs, whatever the scripted faults - so the theorems below need no
+   hypothesis on tr_hung *)
+Theorem never_hung :
+  forall fuel sch tp hl ex bs ql acts cs,
+    tr_hung (run fuel (init_st sch tp hl ex bs ql acts) cs) = false.
+Proof. exact C14FaultProofs.never_hung_lemma. Qed.
+Print Assumptions never_hung.
+
+(* (f) under panics: every transition the machine processes is bracketed
+   Init, Start, (Finals)?, End exactly once and in order, also when handlers
+   panic (in negotiation handlers, in final handlers, in the handlers of
+   the Exception transition itself) *)
+Theorem brackets_run_faults :
+  forall fuel sch tp hl ex bs ql acts cs,
+    forallb (fun a => match ha_fault a with FStall => false | _ => true end) acts = true ->
+    let tr := run fuel (init_st sch tp hl ex bs ql acts) cs in
+    tr_crashed tr = false ->
+    exists fl, brackets BIdle (tr_evs tr) [] = Some fl /\ length fl = length (tr_txs tr).
+Proof. exact C14FaultProofs.brackets_run_faults_lemma. Qed.
+Print Assumptions brackets_run_faults.
+
+(* panics in Enter 0 (negotiation), in Enter 3 = the Exception handler run
+   by the Exception transition, and in State 0 (final handler); 3 of the 11
+   transitions are faulted *)
+Example brackets_run_faults_nonvacuous :
+  let mk := fun (au mu : bool) (rq ad rm : list nat) =>
+    {| s_auto := au; s_multi := mu; s_require := rq; s_add := ad; s_remove := rm; s_after := [] |} in
+  let sch := [ mk false false [] [1] []; mk false true [] [] []; mk true false [1] [] [0];
+               mk false true [] [] [] ] in
+  let bs := [[HEnter 0; HState 0; HState 1; HEnter 3; HState 3; HAnyState]] in
+  let act := fun f => {| ha_ret := true; ha_calls := []; ha_fault := f |} in
+  let call := fun k l => {| ac_kind := k; ac_states := l; ac_args := false |} in
+  let cs := [ call KAdd [0]; call KRemove [0; 1; 3]; call KAdd [0]; call KRemove [3];
+              call KAdd [1]; call KAdd [0] ] in
+  let acts := [act FPanic; act FPanic; act FNone; act FNone; act FPanic] in
+  let tr := run 100 (init_st sch (topo_sort sch [0; 1; 2; 3]) [] 3 bs 1000 acts) cs in
+  forallb (fun a => match ha_fault a with FStall => false | _ => true end) acts = true /\
+  tr_crashed tr = false /\
+  map hl_key (firstn 5 (tr_hlog tr)) = [HEnter 0; HEnter 3; HAnyState; HEnter 0; HState 0] /\
+  map tx_called (tr_txs tr) = [[0]; [3]; [0; 1; 3]; [0]; [3]; [2]; [3]; [2]; [1]; [2]; [0]] /\
+  map (tx_faulted acts) (tr_txs tr)
+  = [true; true; false; true; false; false; false; false; false; false; false] /\
+  brackets BIdle (tr_evs tr) []
+  = Some [false; false; true; true; true; false; true; false; true; true; false].
+Proof. exact C14FaultProofs.brackets_run_faults_nonvacuous_lemma. Qed.
+Print Assumptions brackets_run_faults_nonvacuous.
+
+(* ... and in fact under any scripted faults, stalls (handler timeouts)
+   included; moreover the Finals flag of every transition that consumed no
+   faulty action is right *)
+Theorem brackets_run_any_faults :
+  forall fuel sch tp hl ex bs ql acts cs,
+    let tr := run fuel (init_st sch tp hl ex bs ql acts) cs in
+    tr_crashed tr = false ->
+    exists fl, brackets BIdle (tr_evs tr) [] = Some fl /\ length fl = length (tr_txs tr) /\
+               flags_ok_f (tx_faulted acts) fl (tr_txs tr) = true.
+Proof. exact C14FaultProofs.brackets_run_any_faults_lemma. Qed.
+Print Assumptions brackets_run_any_faults.
+
+(* the same run with a stall in the AnyState handler of Remove[Exception] *)
+Example brackets_run_any_faults_nonvacuous :
+  let mk := fun (au mu : bool) (rq ad rm : list nat) =>
+    {| s_auto := au; s_multi := mu; s_require := rq; s_add := ad; s_remove := rm; s_after := [] |} in
+  let sch := [ mk false false [] [1] []; mk false true [] [] []; mk true false [1] [] [0];
+               mk false true [] [] [] ] in
+  let bs := [[HEnter 0; HState 0; HState 1; HEnter 3; HState 3; HAnyState]] in
+  let act := fun f => {| ha_ret := true; ha_calls := []; ha_fault := f |} in
+  let call := fun k l => {| ac_kind := k; ac_states := l; ac_args := false |} in
+  let cs := [ call KAdd [0]; call KRemove [0; 1; 3]; call KAdd [0]; call KRemove [3];
+              call KAdd [1]; call KAdd [0] ] in
+  let acts := [act FPanic; act FPanic; act FNone; act FNone; act FPanic;
+               act FNone; act FNone; act FNone; act FStall] in
+  let tr := run 100 (init_st sch (topo_sort sch [0; 1; 2; 3]) [] 3 bs 1000 acts) cs in
+  tr_crashed tr = false /\
+  map hl_key (firstn 9 (tr_hlog tr))
+  = [HEnter 0; HEnter 3; HAnyState; HEnter 0; HState 0; HEnter 3; HState 3; HAnyState; HAnyState] /\
+  map (tx_faulted acts) (tr_txs tr)
+  = [true; true; false; true; false; false; true; false; false; false] /\
+  brackets BIdle (tr_evs tr) []
+  = Some [false; false; true; true; true; false; true; true; true; false].
+Proof. exact C14FaultProofs.brackets_run_any_faults_nonvacuous_lemma. Qed.
+Print Assumptions brackets_run_any_faults_nonvacuous.
+
+(* (h) under panics: the fault-aware trace predicate - the one the check
+   evaluates on observed traces - holds on every run of the model that was
+   not cut by the fuel: for the transitions without handler faults,
+   time-after is the machine's time at TransitionEnd (146), canceled / check
+   records report no change (145), time-before is the previous time-after
+   for pairs of unfaulted transitions (144), Finals iff accepted and not a
+   check (143), one record per queued mutation (142), the last report is what
+   the last call observed (147) *)
+Theorem c14f_codes_run_faults :
+  forall fuel sch tp hl ex bs ql acts cs,
+    forallb (fun a => match ha_fault a with FStall => false | _ => true end) acts = true ->
+    let tr := run fuel (init_st sch tp hl ex bs ql acts) cs in
+    tr_crashed tr = false -> tr_fuel_ok tr = true -> c14f_codes acts tr [] = [].
+Proof. exact C14FaultProofs.c14f_codes_run_faults_lemma. Qed.
+Print Assumptions c14f_codes_run_faults.
+
+(* on this run the plain predicate c14_codes does report codes: the
+   exemption of the faulted transitions is what the statement is about *)
+Example c14f_codes_run_faults_nonvacuous :
+  let mk := fun (au mu : bool) (rq ad rm : list nat) =>
+    {| s_auto := au; s_multi := mu; s_require := rq; s_add := ad; s_remove := rm; s_after := [] |} in
+  let sch := [ mk false false [] [1] []; mk false true [] [] []; mk true false [1] [] [0];
+               mk false true [] [] [] ] in
+  let bs := [[HEnter 0; HState 0; HState 1; HEnter 3; HState 3; HAnyState]] in
+  let act := fun f => {| ha_ret := true; ha_calls := []; ha_fault := f |} in
+  let call := fun k l => {| ac_kind := k; ac_states := l; ac_args := false |} in
+  let cs := [ call KAdd [0]; call KRemove [0; 1; 3]; call KAdd [0]; call KRemove [3];
+              call KAdd [1]; call KAdd [0] ] in
+  let acts := [act FPanic; act FPanic; act FNone; act FNone; act FPanic] in
+  let tr := run 100 (init_st sch (topo_sort sch [0; 1; 2; 3]) [] 3 bs 1000 acts) cs in
+  forallb (fun a => match ha_fault a with FStall => false | _ => true end) acts = true /\
+  tr_crashed tr = false /\ tr_fuel_ok tr = true /\
+  length (tr_txs tr) = 11 /\ length (tr_calls tr) = 6 /\
+  existsb (tx_faulted acts) (tr_txs tr) = true /\
+  c14_codes tr [] = [143; 144; 145; 146]%N /\
+  c14f_codes acts tr [] = [].
+Proof. exact C14FaultProofs.c14f_codes_run_faults_nonvacuous_lemma. Qed.
+Print Assumptions c14f_codes_run_faults_nonvacuous.
+
+(* ... and under any scripted faults, stalls included, crashed or not *)
+Theorem c14f_codes_run_any_faults :
+  forall fuel sch tp hl ex bs ql acts cs,
+    let tr := run fuel (init_st sch tp hl ex bs ql acts) cs in
+    tr_fuel_ok tr = true -> c14f_codes acts tr [] = [].
+Proof. exact C14FaultProofs.c14f_codes_run_any_faults_lemma. Qed.
+Print Assumptions c14f_codes_run_any_faults.
+
+Example c14f_codes_run_any_faults_nonvacuous :
+  let mk := fun (au mu : bool) (rq ad rm : list nat) =>
+    {| s_auto := au; s_multi := mu; s_require := rq; s_add := ad; s_remove := rm; s_after := [] |} in
+  let sch := [ mk false false [] [1] []; mk false true [] [] []; mk true false [1] [] [0];
+               mk false true [] [] [] ] in
+  let bs := [[HEnter 0; HState 0; HState 1; HEnter 3; HState 3; HAnyState]] in
+  let act := fun f => {| ha_ret := true; ha_calls := []; ha_fault := f |} in
+  let call := fun k l => {| ac_kind := k; ac_states := l; ac_args := false |} in
+  let cs := [ call KAdd [0]; call KRemove [0; 1; 3]; call KAdd [0]; call KRemove [3];
+              call KAdd [1]; call KAdd [0] ] in
+  let acts := [act FPanic; act FPanic; act FNone; act FNone; act FPanic;
+               act FNone; act FNone; act FNone; act FStall] in
+  let tr := run 100 (init_st sch (topo_sort sch [0; 1; 2; 3]) [] 3 bs 1000 acts) cs in
+  tr_fuel_ok tr = true /\ length (tr_txs tr) = 10 /\
+  length (filter (tx_faulted acts) (tr_txs tr)) = 4 /\
+  c14_codes tr [] = [143; 144; 145; 146]%N /\
+  c14f_codes acts tr [] = [].
+Proof. exact C14FaultProofs.c14f_codes_run_any_faults_nonvacuous_lemma. Qed.
+Print Assumptions c14f_codes_run_any_faults_nonvacuous.
